@@ -20,7 +20,7 @@ RULE = ("random nondeterministic FSTs (<=3 states, <=6 transitions, several star
 ASSUMPTIONS = ["termination of translate is restated as bounded progress under a step budget"]
 TIERS = {
     "quick": {"workers": 4, "random": 3000},
-    "thorough": {"workers": 16, "random": 8000, "pytest": True, "hard_timeout": 3000},
+    "thorough": {"workers": 16, "random": 20000, "pytest": True, "hard_timeout": 3000},
 }
 MIN = {"quick": {"C16.translate": 10000, "C16.FST.union": 500, "C16.FST.concatenate": 500,
                  "C16.FST.kleene_star": 500, "C16.FiniteAutomaton.to_fst": 300},
